@@ -5,6 +5,7 @@ import PugProofs.C06.Static
 import PugModel.Driver.Render
 import PugModel.Tpl.Compile
 import PugModel.Pug.Spec
+import PugProofs.Props.C08
 /-!
 # C06 — static structure and text are reproduced faithfully
 
@@ -260,5 +261,14 @@ theorem C06_compiler_state_per_template :
     (Gen.loadSkeleton.filter fun r => r.2 == "3 new renderState" || r.2 == "0 new renderState" || r.2 == "1 new renderState" ||
       r.2 == "2 new renderState" || r.2 == "4 new renderState") = [("compileDir", "3 new renderState")] :=
   Pug.Props.C10.C10_state_per_template
+
+/-- **C06 (no state outlives a render or a compilation in package variables).** The inventory of package-level variables of pugjs and
+templatefunctions, regenerated from the Go source on every run, holds nothing but the known entries: no cache, pool, shared empty
+object, memo table or once-guard has been added through which one call, one compilation or one render could reach the next (rounds 5-7
+of the seeded changes added such a variable five times: a shared empty attributes map, a shared empty array, an AST cache, a buffer
+pool). Restated here so that THIS property's check fails on it before any input is drawn. -/
+theorem C06_package_state_inventory :
+    Gen.pkgState_ok = true ∧ Gen.pkgState.all (fun v => Pug.Props.C08.knownPkgState.contains v) = true :=
+  Pug.Props.C08.C08_package_state_inventory
 
 end Pug.Props.C06
